@@ -135,6 +135,7 @@ func c07Save(r *core.Run, p *core.Program) {
 		}
 	})
 	snapshotAbortNotice(r, p, rule, wr)
+	snapshotCountFromMaps(r, p, rule)
 	r.Check(okBr && okRm, rule, "writer/abort", p.Pos(wr.Pos()), "renamed to UTXO.db only when not aborted; an aborted save removes its temporary file", "the final rename is not conditional on 'not aborted', or an aborted save leaves / installs its temporary file")
 	// saved height only for a completed save
 	okH := false
@@ -677,4 +678,69 @@ func snapshotAbortNotice(r *core.Run, p *core.Program, rule string, wr *ssa.Func
 		}
 	})
 	r.Check(cond != nil && nrecv >= 2 && lost == "", rule, "writer/abort-notice-reaches-decision", p.Pos(wr.Pos()), fmt.Sprintf("%d receives of the abort notice, all feeding the install-or-remove decision", nrecv), "an abort notice received at "+lost+" does not reach the condition that decides between installing and removing the temporary file")
+}
+
+// snapshotCountFromMaps: the loader reads exactly as many records as the snapshot header announces, and the
+// writer streams every entry of the set's maps.  The announced number therefore has to be computed from
+// those same maps (the sum of their lengths) at the time of the save - a cached statistic that some paths
+// (block disconnection, purging) do not maintain makes the loader stop early or run into the end of file.
+func snapshotCountFromMaps(r *core.Run, p *core.Program, rule string) {
+	const key = "save/record-count-from-the-maps"
+	sv := p.Func("lib/utxo.(*UnspentDB).save")
+	if sv == nil {
+		r.Fail(rule, key, "-", "save not found")
+		return
+	}
+	// header: first word (height and format flag), tip hash, record count - the count is the second of the
+	// two fixed-width words written before the records
+	var words []ssa.Value
+	for _, c := range an.CallsTo(sv, false, "encoding/binary.Write") {
+		v := c.Common().Args[2]
+		if mi, ok := v.(*ssa.MakeInterface); ok {
+			v = mi.X
+		}
+		words = append(words, v)
+	}
+	if len(words) != 2 {
+		r.Fail(rule, key, p.Pos(sv.Pos()), fmt.Sprintf("%d fixed-width header words written by save (expected two: height/flag and record count)", len(words)))
+		return
+	}
+	counts := words[1:]
+	var bad []string
+	nlen := 0
+	seen := map[ssa.Value]bool{}
+	var walk func(v ssa.Value)
+	walk = func(v ssa.Value) {
+		if seen[v] {
+			return
+		}
+		seen[v] = true
+		switch x := v.(type) {
+		case *ssa.Const:
+		case *ssa.Convert:
+			walk(x.X)
+		case *ssa.Phi:
+			for _, e := range x.Edges {
+				walk(e)
+			}
+		case *ssa.BinOp:
+			if x.Op != token.ADD {
+				bad = append(bad, "computed with "+x.Op.String())
+				return
+			}
+			walk(x.X)
+			walk(x.Y)
+		case *ssa.Call:
+			if an.CallName(x) == "builtin.len" && strings.Contains(an.Expr(x.Call.Args[0]), ".HashMap[") {
+				nlen++
+				return
+			}
+			bad = append(bad, "taken from "+clip(an.Expr(v), 70))
+		default:
+			bad = append(bad, "taken from "+clip(an.Expr(v), 70))
+		}
+	}
+	walk(counts[0])
+	sort.Strings(bad)
+	r.Check(len(bad) == 0 && nlen >= 1, rule, key, p.Pos(sv.Pos()), "the announced record count is the sum of the lengths of the set's maps", "the record count in the snapshot header is "+strings.Join(bad, ", ")+" instead of the sum of the lengths of the maps that are written")
 }
